@@ -204,11 +204,14 @@ def gen_items(rng, c, o, ir, concrete, abstracts, top=False, allow_wild=True,
             it["required"] = True
         elif r < 0.7:
             if wild:
+                # (keys of keyed defaults in mixed letter case: what they
+                # are normalised to depends on the key type in force)
+                dk = rng.choice(["dk%d", "dk%d", "Dk%d", "DK%d"])
                 if kind == "key":
-                    it["default"] = [["dk%d" % j, rng.choice(valid)]
+                    it["default"] = [[dk % j, rng.choice(valid)]
                                      for j in range(rng.randint(1, 2))]
                 else:
-                    it["default"] = [["dk%d" % (j // 2), rng.choice(valid)]
+                    it["default"] = [[dk % (j // 2), rng.choice(valid)]
                                      for j in range(rng.randint(1, 3))]
             elif kind == "key":
                 it["default"] = rng.choice(valid)
